@@ -208,6 +208,9 @@ def unpenalized_task(T, tag):
         mask, va, vb = out
         if bool(mask[J]):
             return [('flagged-penalised', [], z3.BoolVal(True))]
+        if sym.is_inf(va) or sym.is_inf(vb):
+            # +inf marks an infeasible point (positivity): outside the statement about the finite value
+            return [('infeasible-point', [], z3.BoolVal(True))]
         return [('unpenalised-feature-does-not-enter-value', [], sym.lift(va) == sym.lift(vb))]
 
     pre = zpre([case.spec(zv).params_ok()])
